@@ -1401,4 +1401,230 @@ theorem lits_sublist_render (cfg : MarkerCfg) (ps : List Patch) : ∀ segs, (lit
     | lit c => simp only [render, lits]; exact ih.cons_cons c
     | chunk k => simp only [render, lits]; exact ih.trans (List.sublist_append_right _ _)
 
+/-! ### the literal-key path: patch points with arbitrary characters
+
+Whatever bytes a patch point has, `Add` puts the literal text `plugin.InsertionPoint(p)` into the
+replacer's map, and `Replace` acts on every place where its left-to-right scan meets a key. -/
+
+/-- what the replacer matches at the start of `s`: the first key (argument order) that is a prefix -/
+def keyLen (m : List (Bytes × Bytes)) (s : Bytes) : Option Nat :=
+  match lookupPrefix m s with
+  | some (k, _) => some (k.length - 1)
+  | none => none
+
+/-- content cut by the replacer's own key set (regexp markers of the content and literal patch keys) -/
+def keyScan (cfg : MarkerCfg) (content : Bytes) (ps : List Patch) : List Seg :=
+  segment (keyLen (replacerOf cfg content ps)) 0 content
+
+theorem replacerOf_vals (cfg : MarkerCfg) (content : Bytes) (ps : List Patch) :
+    (∀ k v, val (replacerOf cfg content ps) k = some v → v = patchText cfg ps k) ∧
+    (∀ k, val (replacerOf cfg content ps) k ≠ none ↔ (k ∈ findAll cfg content ∨ ∃ p ∈ ps, pointKey cfg p.ip = k)) := by
+  have h0 := initFold_val (findAll cfg content) [] (fun k => Or.inr rfl)
+  have hrep0 : Rep cfg ((findAll cfg content).foldl (fun m k => mapAdd k [] m) []) [] := by
+    intro k
+    rw [h0 k]
+    by_cases e : k ∈ findAll cfg content <;> simp [e, patchText, val]
+  obtain ⟨r1, r2⟩ := patchFold_spec cfg ps _ [] hrep0
+  simp only [List.nil_append] at r1
+  unfold replacerOf
+  refine ⟨?_, ?_⟩
+  · intro k v hv
+    rcases r1 k with h | ⟨h, _⟩
+    · rw [h] at hv; injection hv with hv; exact hv.symm
+    · rw [h] at hv; cases hv
+  · intro k
+    rw [r2 k, h0 k]
+    by_cases e : k ∈ findAll cfg content <;> simp [e, val]
+
+theorem replacerOf_key_ne_nil (cfg : MarkerCfg) (hc : CfgOK cfg) (content : Bytes) (ps : List Patch) :
+    ∀ k, val (replacerOf cfg content ps) k ≠ none → k ≠ [] := by
+  intro k hk
+  rcases ((replacerOf_vals cfg content ps).2 k).1 hk with h | ⟨p, _, e⟩
+  · obtain ⟨w, _, hw⟩ := chunks_wordKey cfg content 0 k h
+    rw [hw]; simp
+  · rw [← e, pointKey, hc.2.1]; simp
+
+theorem replaceAux_eq_renderKeys (cfg : MarkerCfg) (m : List (Bytes × Bytes)) (ps : List Patch)
+    (hne : ∀ k, val m k ≠ none → k ≠ [])
+    (hv : ∀ k v, val m k = some v → v = patchText cfg ps k) :
+    ∀ (s : Bytes) (n : Nat), replaceAux m n s = render cfg ps (segment (keyLen m) n s) := by
+  intro s
+  induction s with
+  | nil => intro n; simp [replaceAux, segment, render]
+  | cons c r ih =>
+    intro n
+    cases n with
+    | succ n => simp only [segment, replaceAux]; exact ih n
+    | zero =>
+      unfold segment replaceAux keyLen
+      cases hl : lookupPrefix m (c :: r) with
+      | none => simp only [render]; rw [ih 0]; rfl
+      | some kv =>
+        obtain ⟨k, v⟩ := kv
+        obtain ⟨hval, r', hpre⟩ := lookupPrefix_some m _ _ _ hl
+        have hk : k ≠ [] := hne k (by rw [hval]; simp)
+        have hlen : k.length - 1 + 1 = k.length := by
+          cases k with
+          | nil => exact absurd rfl hk
+          | cons _ _ => simp
+        simp only [render]
+        rw [hlen, hpre, List.take_left' rfl, ← hv k v hval, ih (k.length - 1)]
+        rfl
+
+theorem replace_eq_renderKeys (cfg : MarkerCfg) (hc : CfgOK cfg) (content : Bytes) (ps : List Patch) :
+    replace (replacerOf cfg content ps) content = render cfg ps (keyScan cfg content ps) :=
+  replaceAux_eq_renderKeys cfg _ ps (replacerOf_key_ne_nil cfg hc content ps) (replacerOf_vals cfg content ps).1 content 0
+
+theorem segment_skip (m : Bytes → Option Nat) : ∀ (l b : Bytes), segment m l.length (l ++ b) = segment m 0 b := by
+  intro l
+  induction l with
+  | nil => intro b; rfl
+  | cons x l ih => intro b; simp only [List.length_cons, List.cons_append, segment]; exact ih b
+
+/-- no key of the map is a proper prefix of another one -/
+def PrefixFreeKeys (m : List (Bytes × Bytes)) : Prop :=
+  ∀ k k', val m k ≠ none → val m k' ≠ none → (∃ r, k' = k ++ r) → k = k'
+
+theorem prefix_of_both : ∀ (k k' r r' : Bytes), k ++ r = k' ++ r' → (∃ t, k' = k ++ t) ∨ (∃ t, k = k' ++ t) := by
+  intro k
+  induction k with
+  | nil => intro k' r r' _; exact Or.inl ⟨k', rfl⟩
+  | cons x k ih =>
+    intro k' r r' h
+    cases k' with
+    | nil => exact Or.inr ⟨x :: k, rfl⟩
+    | cons y k' =>
+      simp at h
+      rcases ih k' r r' h.2 with ⟨t, ht⟩ | ⟨t, ht⟩
+      · exact Or.inl ⟨t, by rw [h.1, ht]; rfl⟩
+      · exact Or.inr ⟨t, by rw [h.1, ht]; rfl⟩
+
+theorem lookupPrefix_of_prefixFree (m : List (Bytes × Bytes)) (hpf : PrefixFreeKeys m) (k v r : Bytes)
+    (hval : val m k = some v) : lookupPrefix m (k ++ r) = some (k, v) := by
+  have hne := lookupPrefix_ne_none m (k ++ r) k r (by rw [hval]; simp) rfl
+  cases hl : lookupPrefix m (k ++ r) with
+  | none => exact absurd hl hne
+  | some kv =>
+    obtain ⟨k', v'⟩ := kv
+    obtain ⟨hval', r', hpre⟩ := lookupPrefix_some m _ _ _ hl
+    have e : k = k' := by
+      rcases prefix_of_both k k' r r' hpre with h | h
+      · exact hpf k k' (by rw [hval]; simp) (by rw [hval']; simp) h
+      · exact (hpf k' k (by rw [hval']; simp) (by rw [hval]; simp) h).symm
+    subst e
+    rw [hval] at hval'
+    injection hval' with hval'
+    rw [hval']
+
+/-- at a scan position where the text continues with the literal marker text of a patched point,
+the replacer takes exactly that key (prefix-free key set) and resumes right after it -/
+theorem keyScan_at_literal_marker (cfg : MarkerCfg) (hc : CfgOK cfg) (content : Bytes) (ps : List Patch)
+    (hpf : PrefixFreeKeys (replacerOf cfg content ps)) (p : Patch) (hp : p ∈ ps) (b : Bytes) :
+    segment (keyLen (replacerOf cfg content ps)) 0 (pointKey cfg p.ip ++ b) =
+      .chunk (pointKey cfg p.ip) :: segment (keyLen (replacerOf cfg content ps)) 0 b := by
+  have hpres : val (replacerOf cfg content ps) (pointKey cfg p.ip) ≠ none :=
+    ((replacerOf_vals cfg content ps).2 _).2 (Or.inr ⟨p, hp, rfl⟩)
+  have hk : pointKey cfg p.ip ≠ [] := replacerOf_key_ne_nil cfg hc content ps _ hpres
+  cases hv : val (replacerOf cfg content ps) (pointKey cfg p.ip) with
+  | none => exact absurd hv hpres
+  | some v =>
+    have hl := lookupPrefix_of_prefixFree _ hpf _ v b hv
+    cases hk' : pointKey cfg p.ip with
+    | nil => exact absurd hk' hk
+    | cons x l =>
+      rw [hk'] at hl
+      simp only [List.cons_append] at hl ⊢
+      rw [segment]
+      simp only [keyLen, hl, List.length_cons, Nat.add_sub_cancel]
+      have : (x :: (l ++ b)).take (l.length + 1) = x :: l := by
+        rw [List.take_succ_cons, List.take_left' rfl]
+      rw [this, segment_skip]
+
+/-- with a prefix-free key set the order of the replacer's pairs (Go map range) cannot matter -/
+theorem replaceAux_congr (m m' : List (Bytes × Bytes)) (h : ∀ s, lookupPrefix m' s = lookupPrefix m s) :
+    ∀ (s : Bytes) (n : Nat), replaceAux m' n s = replaceAux m n s := by
+  intro s
+  induction s with
+  | nil => intro n; simp [replaceAux]
+  | cons c r ih =>
+    intro n
+    cases n with
+    | succ n => simp only [replaceAux]; exact ih n
+    | zero =>
+      unfold replaceAux
+      rw [h (c :: r)]
+      cases lookupPrefix m (c :: r) with
+      | none => simp only; rw [ih 0]
+      | some kv => simp only; rw [ih]
+
+theorem replace_perm_prefixFree (m m' : List (Bytes × Bytes)) (hp : m'.Perm m) (hn : (m.map (·.1)).Nodup)
+    (hpf : PrefixFreeKeys m) (s : Bytes) : replace m' s = replace m s := by
+  have hv := val_perm hp hn
+  have hpf' : PrefixFreeKeys m' := by
+    intro k k' h1 h2 h3
+    exact hpf k k' (by rw [← hv k]; exact h1) (by rw [← hv k']; exact h2) h3
+  refine replaceAux_congr m m' ?_ s 0
+  intro t
+  cases hl : lookupPrefix m t with
+  | some kv =>
+    obtain ⟨k, v⟩ := kv
+    obtain ⟨hval, r, hpre⟩ := lookupPrefix_some m _ _ _ hl
+    rw [hpre]
+    exact lookupPrefix_of_prefixFree m' hpf' k v r (by rw [hv k]; exact hval)
+  | none =>
+    cases hl' : lookupPrefix m' t with
+    | none => rfl
+    | some kv =>
+      obtain ⟨k, v⟩ := kv
+      obtain ⟨hval, r, hpre⟩ := lookupPrefix_some m' _ _ _ hl'
+      rw [hv k] at hval
+      have := lookupPrefix_of_prefixFree m hpf k v r hval
+      rw [← hpre, hl] at this
+      cases this
+
+/-! ### the backend's stream: a file followed by its nameless patch -/
+
+theorem feedLoop_file_then_patch (st : St) (hI : Inv st) (last : Bytes) (skip : Bool) (f u : Item) (n : Bytes) (rest : List Item)
+    (hn : f.name = some n) (hne : n ≠ []) (hip : f.ip = []) (hu : u.name = none) :
+    feedLoop st last skip (f :: u :: rest) = feedLoop st last true rest ∨
+    ∃ m st', Fam n m ∧ st'.files = st.files ++ [(m, f.content)] ∧ st'.patch = st.patch ∧
+      feedLoop st last skip (f :: u :: rest) = feedLoop (addPatch st' m u) m false rest := by
+  cases hi : st.index n with
+  | none =>
+    refine Or.inr ⟨n, addFile st n f.content, Or.inl rfl, rfl, rfl, ?_⟩
+    rw [feedLoop_new st last skip f _ n hn hi, feedLoop_unnamed_patch _ n u rest hu hne]
+  | some idx =>
+    by_cases hd : ∃ i ∈ siblings st n idx, contentAt st i = some f.content
+    · left
+      have := feedLoop_dup st last skip f n idx [u] rest hn hi hip (siblings_valid hI n idx hi) hd
+        (by intro x hx; simp at hx; rw [hx]; exact hu)
+      simpa using this
+    · right
+      obtain ⟨k, hk, _, _, he⟩ := feedLoop_conflict st hI last skip f n idx (u :: rest) hn hi hip hd
+      refine ⟨sib n k, renameSt st n (sib n k) f.content, Or.inr ⟨k, hk, rfl⟩, rfl, rfl, ?_⟩
+      rw [he, feedLoop_unnamed_patch _ (sib n k) u rest hu (sib_ne_nil n k)]
+
+/-- decidable form of `PrefixFreeKeys` on the list of keys -/
+def prefixFreeList (ks : List Bytes) : Bool :=
+  ks.all fun k => ks.all fun k' => !(stripPrefix k k').isSome || k == k'
+
+theorem val_ne_none_mem : ∀ (m : List (Bytes × Bytes)) (k : Bytes), val m k ≠ none → k ∈ m.map (·.1) := by
+  intro m
+  induction m with
+  | nil => intro k h; simp [val] at h
+  | cons kv m ih =>
+    intro k h
+    obtain ⟨k0, v0⟩ := kv
+    by_cases e : k0 = k
+    · simp [e]
+    · simp only [val, e, if_false] at h
+      exact List.mem_cons_of_mem _ (ih k h)
+
+theorem prefixFreeKeys_of_list (m : List (Bytes × Bytes)) (h : prefixFreeList (m.map (·.1)) = true) : PrefixFreeKeys m := by
+  intro k k' h1 h2 ⟨r, hr⟩
+  simp only [prefixFreeList, List.all_eq_true] at h
+  have := h k (val_ne_none_mem m k h1) k' (val_ne_none_mem m k' h2)
+  have hs : (stripPrefix k k').isSome = true := by rw [(stripPrefix_some k k' r).2 hr]; rfl
+  simpa [hs] using this
+
 end FileManager
